@@ -151,6 +151,19 @@ func runC11(r *run) {
 				emit(caseT{"absdiff", []string{has, fmt.Sprint(route)}})
 			}
 		}
+		// a relative name that is missing next to the referrer is missing - a file of the same name
+		// elsewhere (at the root, in the parent directory) is not what was named
+		for ti, tag := range []string{"{% extends \"x.tpl\" %}", "{% include \"x.tpl\" %}", "{% import \"x.tpl\" m %}", "{% ssi \"x.tpl\" %}", "{% ssi \"x.tpl\" parsed %}", "{% set n = \"x.tpl\" %}{% include n %}",
+			"{% include \"x.tpl\" if_exists %}ok", "{% set n = \"x.tpl\" %}{% include n if_exists %}ok"} {
+			for di, dir := range []string{"sub/", "sub/deep/", "a/b/c/"} {
+				files := map[string]string{dir + "main.tpl": tag, "x.tpl": "ROOT{% macro m() export %}r{% endmacro %}", "sub/other/x.tpl": "ELSEWHERE"}
+				if di == 1 {
+					files["sub/x.tpl"] = "PARENTDIR"
+				}
+				w := &world{files: []map[string]string{files}}
+				emit(caseT{"missingrel", append(w.args(dir+"main.tpl", nil), "-", "-", fmt.Sprint(ti))})
+			}
+		}
 		// the same flat composition through every loader pongo2 ships, on a real directory
 		for i := 0; i < 40; i++ {
 			emit(caseT{"realloaders", []string{fmt.Sprint(i)}})
@@ -325,7 +338,41 @@ func execRealLoaders(r *run, c caseT) {
 	}
 }
 
+func execMissingRel(r *run, c caseT) {
+	w, name, ctx := worldFromArgs(c.args)
+	o, b := w.render(name, true, ctx)
+	obs := o.obs + "#" + strings.Join(b.seq, ",")
+	id := r.emit("loadlog", c.args, obs)
+	r.nontrivial(c.args[0] + c.args[2])
+	ifExists := strings.Contains(w.files[0][name], "if_exists")
+	detail := map[string]any{"files": w.files, "entry": name, "observed": o.obs, "log": b.seq}
+	if strings.Contains(o.out, "ROOT") || strings.Contains(o.out, "PARENTDIR") || strings.Contains(o.out, "ELSEWHERE") {
+		r.reject(id, "a missing relative name was served by a file of the same name in another directory", detail)
+		return
+	}
+	if ifExists && o.obs != obsOK("ok") {
+		r.reject(id, "if_exists on a missing name did not render nothing", detail)
+		return
+	}
+	if !ifExists && o.obs != "cerr" && o.obs != "xerr" {
+		r.reject(id, "a missing name did not produce an error", detail)
+		return
+	}
+	want := filepath.Join(filepath.Dir(name), "x.tpl")
+	for _, e := range b.seq {
+		parts := strings.Split(e, ":")
+		if f := unhx(parts[1]); f != name && f != want {
+			r.reject(id, "a name was fetched that no involved template references", map[string]any{"files": w.files, "fetched": f, "log": b.seq})
+			return
+		}
+	}
+}
+
 func execC11(r *run, c caseT) {
+	if c.op == "missingrel" {
+		execMissingRel(r, c)
+		return
+	}
 	if c.op == "realloaders" {
 		execRealLoaders(r, c)
 		return
